@@ -283,7 +283,7 @@ def main(ctx, replay):
     rng = random.Random(ctx.seed)
     info = C.prologue(ctx)
     if info["hbin"] is None:
-        raise RuntimeError("harness build failed:\n" + info.get("go_log", ""))
+        raise C.HarnessBuildFailed(info.get("go_log", ""))
     assumptions = ["settings normalisation (unknown role string -> read, principal trimmed) is done by the Python glue as NewServer's options do",
                    "tool bodies are exercised with an argument set that fails validation before any side effect; 'no effect' is judged by hashing config/db/pid files"]
     known, names = build_names(rng, ctx.tier)
